@@ -67,12 +67,28 @@ class Prop:
               "implementation's full observable state of all trees after every step must equal the model's, and a pointer-walking oracle checks "
               "`is`/`is not` for nodes, data objects, child lists and metadata dicts on every copy and every later step."),
         note=("Trusted: Coq kernel + vm_compute; hand-written model Mut/Machine.v (tied by the correspondence only); harness/mut.py, mut_c07.py. "
-              "The model describes the code as repaired by fixes/ (series in fixes/SERIES.txt) incl. D20-D23, D06/D44 and D70 (found here: "
-              "add(tree, before=node / negative / clamped index) inserted the copies in reverse order). Known finding D47 (top node of a typed "
-              "copy gets the default kind; pinned by the suite) is modelled, excluded explicitly in the theorems, expected exactly by the oracle "
-              "and reported as KNOWN-FINDING. Sharing of mutable structure cannot be expressed in the value model; it is excluded by the oracle's "
-              "identity checks on every generated case, not by a theorem. Metadata is not copied by the library (a copy starts without) - the "
-              "property statement does not ask for it."),
+              "DECIDED BY THEOREMS: faithfulness (strip_ids: same data objects, data_ids, kinds, order, shape) of every copy operation and every "
+              "`before`; freshness of the new identities (next, next+1, ...; in no tree of a reachable world before); position of the copies; the "
+              "copy step leaves every existing row of the target tree and the whole state of every other tree as it was; frame per tree (no "
+              "operation writes a tree it does not work on) and locality (none reads outside its footprint) over histories; inside one tree the "
+              "restricted frame C07_same_tree_frame. DECIDED BY THE HARNESS ORACLE ONLY (the model is a pure value model in which sharing of a "
+              "`_children` list, a `_meta` dict or a Node object is not representable, so 'source untouched' and 'a later change does not leak' "
+              "hold there by construction and the frame theorems carry no weight against aliasing): mut_c07.copy_oracle - every copied node is a "
+              "new object, `copy._children is not src._children`, `copy._meta is not src._meta`, same data object by `is`, and every node object "
+              "that existed before has the same data object / data_id / kind / meta dict object and content / parent / tree / children list "
+              "OBJECT with the same elements in the same order (the caller-visible order of the source), also after a refused copy; "
+              "mut_c07.independence_oracle (i) after every later step every tree the operation does not work on is pointer-identical, (ii) for "
+              "same-tree copies branch-local operations inside one branch leave the other untouched; plus the correspondence of the full "
+              "observable state of all trees after every step. SAME-TREE COPIES ARE CLONES of their source (same data_id): the English clause "
+              "'later changes to either side are never visible in the other' is false as written for them - remove(with_clones=True) / "
+              "set_data(with_clones=True) on one reaches the other (Example C07_same_tree_copy_is_a_clone); this is the library's documented clone "
+              "semantics, not a defect; stated instead: full independence across different trees, and inside one tree for the operations that do "
+              "not name clones and work outside the other branch. The model describes the code as repaired by fixes/ incl. D20-D23, D06/D44 and "
+              "D70 (found here). Known finding D47 (top node of a typed copy made through add_child gets the default kind; pinned by the suite) "
+              "is modelled, excluded explicitly in the theorems, expected exactly by the oracle and reported as KNOWN-FINDING. Metadata is not "
+              "copied by the library (a copy starts without). copy_to(add_self=False) is only called with before=None (the library asserts it; "
+              "the model ignores `before` there). The oracle checks the block position for every `before` form "
+              "(None/False: appended, True/0: first, node: directly in front, index: where list.insert() resolves it against the old list)."),
         technique="Coq proof about an executable Gallina model + differential correspondence check (vm_compute) + Python oracle",
         design_ref="DESIGN.md section 6 (C07), 3.2, 3.4",
     )
@@ -89,6 +105,9 @@ class Prop:
         # quick = three of them (two grandchildren, a chain of 4, three grandchildren), 'mixed' labeling, every 8th alternative
         groups += list(M.gen_groups(0, shapes=[M.EXTRA_SHAPES[i] for i in (0, 1, 3)] if quick else M.EXTRA_SHAPES,
                                     labelings=("mixed",), full=not quick))
+        if quick:
+            # quick: the 'equal' labeling (identity vs equality of data objects) only on the sources with <= 2 nodes
+            groups = [g for g in groups if not (g["n"] == 3 and g["label"].startswith("equal"))]
         for gi, g in enumerate(groups):
             alts = g["alts"]
             if quick and g["n"] > 3:
@@ -105,6 +124,9 @@ class Prop:
         # below a parent created later) and sources with a clone nested inside its own clone's branch followed by later
         # children; on them every copy of whole branches / of the whole tree, every `before` of add(tree)
         hist_groups = list(M.gen_groups(3 if quick else 4, nmin=2, labelings=("mixed",), reorders=("A", "B", "C")))
+        if quick:
+            # quick: two of the three re-ordering variants per 3-node source, rotating (the 2-node sources get all three)
+            hist_groups = [g for i, g in enumerate(hist_groups) if g["n"] < 3 or i % 3 != (i // 3) % 3]
         hist_groups += list(M.gen_nested_groups(reorders=(None, "B") if quick else (None, "A", "B", "C")))
         if not quick:
             hist_groups += list(M.gen_groups(0, shapes=M.EXTRA_SHAPES, labelings=("mixed",), reorders=("A", "B", "C")))
@@ -112,13 +134,13 @@ class Prop:
         # source's own branch (legal for shallow copies); and targets that hold ANOTHER object under the source's data_ids
         # (the target is a Tree.copy() of the source whose nodes got new data objects under their old data_ids)
         hist_groups += list(M.gen_default_groups(3))
-        hist_groups += list(M.gen_versioned_groups(3))
+        hist_groups += list(M.gen_versioned_groups(3, typed=(False, True) if not quick else (False,))) + (list(M.gen_versioned_groups(2, typed=(True,))) if quick else [])
         for g in hist_groups:
             for i in range(0, len(g["alts"]), 64):
                 yield dict(kind="alts", univ=g["univ"], setup=g["setup"], alts=g["alts"][i:i + 64], label=g["label"])
         groups = groups + hist_groups
         # histories on small sources: every k-th copy alternative followed by a mutation tail
-        stride = 71 if quick else 26
+        stride = 149 if quick else 26
         j = 0
         for g in groups:
             if g["n"] < 2:
@@ -130,7 +152,7 @@ class Prop:
                 h, _ = M.gen_history(rng, g["setup"], a, rng.randint(4, 10), univ=g["univ"])
                 yield dict(kind="hist", univ=h["univ"], ops=h["ops"], check_from=len(g["setup"]))
         # larger random sources
-        for i in range(22 if quick else 300):
+        for i in range(18 if quick else 300):
             setup, n, typed = M.random_source(rng, 4, 8 if quick else 12)
             h, _ = M.gen_history(rng, setup, M.random_copy_op(rng, n, typed), rng.randint(6, 14 if quick else 25),
                                  reorder=rng.randint(0, 4))
